@@ -48,6 +48,15 @@ def argTo (args : List String) (k : String) : Option (Option Py.DType) :=
 `gimgio shape= dt= data= to= rd=`            → save with `to`, then load what was written (array + axes) with `rd`;
 `gimgget shape= dt= data= key=i,j,k,l`       → the element the GENERATED `NDArrayImageStack.__getitem__` returns -/
 def handleImgIo (what : String) (args : List String) : String :=
+  if what = "gimgread" then
+    -- `gimgread fname= found=0|1 root=0|1 dt=none|<dtype>` → `<class>;<dtype handed to it>` of the GENERATED `read_imgs` (`E` = ValueError)
+    match Proto.arg args "fname", Proto.arg args "found", Proto.arg args "root", argTo args "dt" with
+    | some fname, some fd, some rt, some dt =>
+      match read_imgs fname (fd == "1") (rt == "1") (match dt with | some d => [("dtype", d)] | none => []) with
+      | none => "E"
+      | some (cls, kw) => s!"{cls};{(Py.Dict.get? kw "dtype").elim "none" dtypeName}"
+    | _, _, _, _ => "bad-args"
+  else
   match argArr args with
   | none => "bad-args"
   | some a =>
